@@ -18,7 +18,7 @@ type Poly map[string]*big.Int
 var ErrTooBig = errors.New("poly: term limit exceeded")
 
 // Limit is the maximal number of monomials tolerated in intermediate results.
-var Limit = 200000
+var Limit = 20000
 
 func Const(c *big.Int) Poly {
 	if c.Sign() == 0 {
